@@ -1,25 +1,47 @@
 #!/usr/bin/env python3
-"""Run every seeded change against the quick check of the property it targets; write seeded/RESULTS.json."""
+"""Run every seeded change against the quick check of the property it targets, each on its own scratch clone of /repo
+(tools/evalcopy.py), N at a time; write seeded/RESULTS.json.   matrix.py [-j N] [C04 C09-m1 ...]"""
 import json
 import os
 import re
 import subprocess
 import sys
+from concurrent.futures import ThreadPoolExecutor
 
 os.chdir("/verif")
-only = sys.argv[1:]
+args = sys.argv[1:]
+jobs = 3
+if "-j" in args:
+    i = args.index("-j")
+    jobs = int(args[i + 1])
+    del args[i:i + 2]
+only = args
 res_path = "seeded/RESULTS.json"
 res = json.load(open(res_path)) if os.path.exists(res_path) else {}
+names = []
 for d in sorted(os.listdir("seeded")):
     if not os.path.isdir(os.path.join("seeded", d)) or not re.match(r"C\d\d", d):
         continue
     if only and d not in only and d.split("-")[0] not in only:
         continue
+    names.append(d)
+
+
+def one(d):
     pid = d.split("-")[0]
-    p = subprocess.run([sys.executable, "tools/seeded.py", "eval", "seeded/" + d, pid, "quick"], capture_output=True, text=True)
-    out = p.stdout
-    m = re.search(r"exit=(\d+)", out)
-    keys = re.findall(r"key=(.*)", out)
-    res[d] = {"check": pid, "tier": "quick", "exit": int(m.group(1)) if m else None, "keys": keys[:4]}
-    print(d, res[d]["exit"], keys[:1], flush=True)
-    json.dump(res, open(res_path, "w"), indent=1)
+    p = subprocess.run([sys.executable, "tools/evalcopy.py", "seeded/%s/patch.diff" % d, "sd_" + d, pid], capture_output=True, text=True)
+    m = re.search(r"exit=(\d+) ?(.*)", p.stdout)
+    jf = "/tmp/evalcopy_sd_%s.json" % d
+    keys = []
+    if os.path.exists(jf):
+        keys = json.load(open(jf)).get(pid, {}).get("keys", [])
+        os.remove(jf)
+    return d, {"check": pid, "tier": "quick", "exit": int(m.group(1)) if m else None, "keys": keys[:4],
+               "note": "" if m else (p.stdout + p.stderr)[-300:]}
+
+
+with ThreadPoolExecutor(max_workers=jobs) as ex:
+    for d, r in ex.map(one, names):
+        res[d] = r
+        print(d, r["exit"], r["keys"][:1] or r["note"], flush=True)
+        json.dump(res, open(res_path, "w"), indent=1)
